@@ -384,7 +384,7 @@ Proof.
     + destruct (micro_rp _ _ _ _ _ M) as [E | E]; rewrite E; [specialize (RA1 AX); lia|].
       pose proof (w_cursor_le_head c Sh G _ (REG (ftr_wh X Q (att_ftr _ AX)))). lia.
     + rewrite (micro_r2 _ _ _ _ _ M PR2).
-      assert (F : fn_of (a_pc X) = FTR) by (rewrite PR2; reflexivity).
+      assert (F : fn_of (a_pc X) = FTR) by (destruct PR2 as [-> | ->]; reflexivity).
       pose proof (w_cursor_le_head c Sh G _ (REG (ftr_wh X Q F))). lia.
   - intros MT. destruct (micro_matched _ _ _ _ _ M Q MT) as (ES & [(MX & E) | (PC & E & TG)]); rewrite E.
     + specialize (RA2 MX). lia.
